@@ -41,7 +41,8 @@ func (s *server) Select(selectorContext *Context) (string, error) {
 		}
 	}
 	if serverId == "" {
-		panic("unexpected behaviour")
+		// no selector could pick a server (e.g. no candidate is left): refuse instead of crashing the coordinator
+		return "", selectors.ErrUnsatisfiedEnsembleReplicas
 	}
 	return serverId, nil
 }
